@@ -153,7 +153,7 @@ func newContracts() *Contracts {
 		Axioms: map[string]Clause{}, Lemmas: map[string]*Lemma{}, Ghosts: map[string]GhostDecl{}}
 }
 
-var labelRe = regexp.MustCompile(`^([A-Za-z_][A-Za-z0-9_\-]*):\s+(.*)$`)
+var labelRe = regexp.MustCompile(`^([A-Za-z_][A-Za-z0-9_\-.]*):\s+(.*)$`)
 var modeTagRe = regexp.MustCompile(`^\[([a-z,]+)\]\s*(.*)$`)
 
 func mkClause(rest, where string) (Clause, error) {
